@@ -276,14 +276,29 @@ class CallMixin:
                 res = None
             cenv["result"] = res
             n_before = len(st.pc)
+            outside = True
+            for rg in c.regions:
+                (s_, v) = self.ev1(self.parse(rg["when"]), dict(old_env), st)
+                (s_, w), = self.truth(v, st)
+                w = simp(w)
+                outside = z_and(outside, z_not(w))
+                if w is False:
+                    continue
+                for r in rg["ensures"]:
+                    (s_, v) = self.ev1(self.parse(r), cenv, st)
+                    (s_, b), = self.truth(v, st)
+                    st.assume(z_implies(w, b))
+            outside = simp(outside)
             for r in c.ensures:
+                if outside is False:
+                    break
                 (s_, v) = self.ev1(self.parse(r), cenv, st)
                 (s_, b), = self.truth(v, st)
-                if b is False:
+                if b is False and outside is True:
                     raise ContractBindingError(
                         "contract of %s is contradictory at %s: clause %r is "
                         "concretely false" % (info.key, site, r))
-                st.assume(b)
+                st.assume(b if outside is True else z_implies(outside, b))
             # (a contradictory ensures is caught by the exit-feasibility guard
             #  of Engine.verify: some exit path must be satisfiable)
         finally:
@@ -349,11 +364,33 @@ class CallMixin:
                     if verdict == "nomatch":
                         return [(st, None)]
                     if verdict == "match":
-                        return [(st, textlex.MatchModel(
-                            {k: (None if g is None else tx.pieces[g[1]] if g[0] == "piece"
-                                 else g[1]) for k, g in groups.items()}))]
+                        from .strings import DigitField as _DF
+
+                        def cap(g):
+                            if g is None:
+                                return None
+                            if g[0] == "piece":
+                                return tx.pieces[g[1]]
+                            if g[0] == "sub":
+                                # digits off..off+w of a W-digit field: (v div 10^(W-off-w)) mod 10^w
+                                f = tx.pieces[g[1]]
+                                lowp = 10 ** (f.width - g[2] - g[3])
+                                return _DF(g[3], (f.var / lowp) % (10 ** g[3]))
+                            return g[1]
+                        return [(st, textlex.MatchModel({k: cap(g) for k, g in groups.items()}))]
                     raise OutOfReach("lexing lemma for %r on %r undecided: %s" % (
                         recv.obj.pattern[:30], tx, [o for o in obs if o[1] is not True][:2]))
+            if isinstance(recv, RealObj) and name == "real.sub" and len(args) == 3 and not kws:
+                import re as _re
+                from .strings import Text as _Text, FmtResult as _Fmt
+                a2 = args[2]._view(self, st) if isinstance(args[2], _Fmt) else args[2]
+                tx = _Text.of(a2)
+                if isinstance(recv.obj, _re.Pattern) and tx is not None and isinstance(args[1], str):
+                    from . import textlex
+                    try:
+                        return [(st, textlex.text_sub(recv.obj, args[1], tx).simplest())]
+                    except textlex.Unsupported as e:
+                        raise OutOfReach("regex substitution on a piecewise text: %s" % e)
             raise OutOfReach("method %s of a real object on symbolic arguments" % name)
         if name.startswith("x."):
             r = self.extra_builtins[name[2:]](self, args, kws, st)
